@@ -1,0 +1,15 @@
+//go:build verif
+
+package transaction
+
+import "github.com/glebziz/fs_db/internal/model"
+
+// VerifAll lists the registered transactions in registry order (verification builds only).
+func (r *Repo) VerifAll() []model.Transaction {
+	var res []model.Transaction
+	for it := r.storage.Iter(); it.Next(); {
+		res = append(res, it.Val())
+	}
+
+	return res
+}
